@@ -34,8 +34,12 @@ def run_obligation(law, cfg, pristine, timeout_ms, budget_s):
 
     def pre_fn(e):
         if rational:
-            e.assume(z3.And(b >= 1, b <= D, d >= 1, d <= D))
-            if pre == 'c':
+            # denominators of either sign (Fraction normalises the sign into the numerator)
+            if cfg.get('posden'):
+                e.assume(z3.And(b >= 1, b <= D, d >= 1, d <= D))
+            else:
+                e.assume(z3.And(b >= -D, b <= D, b != 0, d >= -D, d <= D, d != 0))
+            if pre == 'c' or cfg.get('smallc'):
                 e.assume(z3.And(c >= -D, c <= D, c != 0))
         else:
             if pre and 'b' in pre:
@@ -52,7 +56,7 @@ def run_obligation(law, cfg, pristine, timeout_ms, budget_s):
         if rational:
             bv = e.realize(b)
             dv = e.realize(d)
-            cv = e.realize(c) if pre == 'c' else SymInt(c)
+            cv = e.realize(c) if (pre == 'c' or cfg.get('smallc')) else SymInt(c)
             ops = [SymInt(a), bv, cv, dv]
         else:
             ops = [SymInt(a), SymInt(b), SymInt(c)]
